@@ -40,6 +40,7 @@ def log(msg):
 
 def sh(cmd, cwd=None, env=None, timeout=None, capture=True):
     e = dict(os.environ)
+    e.pop("CARGO_TARGET_DIR", None)   # the harness always builds into its own cache directory
     e.update({"CARGO_NET_OFFLINE": "true"})
     if env:
         e.update(env)
@@ -513,6 +514,8 @@ def decide(pid, tier, seed, replay=None):
                 if found:
                     break
 
+    if not metas and not replay and not violations:
+        violations.append(dict(kind="broken-correspondence", what="no case was executed (harness binary missing or produced no output)", case=""))
     # (5) known findings / reporting
     known = load_known()
     reported, known_hits = [], {}
